@@ -629,6 +629,10 @@ class C12(Prop):
                 if rng.random() < 0.7:
                     ops.append(f"0 chunk {n}")
                     ops.append("0 proc - n m r1")
+                    if rng.random() < 0.3:
+                        # the bound is the construction-time chunk size whatever happened in between (reset included)
+                        ops.append("0 reset")
+                        ops.append(f"0 chunk {rng.choice([cfg.chunk, max(1, cfg.chunk - 1), cfg.chunk + 1])}")
             hs.append(History(ops, {"cfg": cfg.line, "kind": cfg.kind, "ty": cfg.ty, "feats": sorted(classes),
                                     "orig": orig, "maxrel": maxrel, "chunk": chunk}))
         return hs
@@ -942,6 +946,22 @@ class C16(Prop):
                 ops.append(f"1 {b}")
             hs.append(History(ops, {"cfg": cfg.line, "kind": cfg.kind, "ty": cfg.ty, "feats": sorted(feats),
                                     "pairs": pairs}))
+        # FftFixedIn with a chunk that is not a whole number of (small) blocks, long enough to pass through every alignment of
+        # the carried-over frames with the block size: process() sizes its output by output_frames_next()
+        for i in range(max(6, self.n // 20)):
+            ri, ro = rng.choice([(2, 1), (3, 2), (2, 3), (7, 5), (5, 7), (147, 160)])
+            blk = ri // math.gcd(ri, ro)
+            k = rng.randint(1, 4)
+            chunk = blk * k * rng.randint(1, 3) + rng.randint(1, max(1, blk * k - 1))
+            ty, nch = rng.choice(["f64", "f32"]), rng.choice([1, 2])
+            line = f"{ty} fftin {ri} {ro} {chunk} {rng.choice([1, 2, 3])} {nch}"
+            ops = [f"0 new {line}", f"1 new {line}"]
+            pairs = []
+            for _ in range(min(170, 3 * blk * k + 6)):
+                pairs.append(len(ops))
+                ops += ["0 procw - n r5", "1 proc - n m r5"]
+            hs.append(History(ops, {"cfg": line, "kind": "fftin", "ty": ty, "feats": ["process", "fftin-alignments"],
+                                    "pairs": pairs}))
         return hs
 
     def nontrivial(self, h):
@@ -1038,10 +1058,42 @@ class C18(Prop):
                 merged.append(ops[k][idx[k]])
                 idx[k] += 1
             hs.append(History(merged, {"cfg": " ; ".join(cfgs), "kind": "mixed", "ty": "mixed", "feats": sorted(feats)}))
+        # large filter tables (>= 2^17 points), each built several times, alone and concurrently: equal arguments must give
+        # bit-identical tables whatever else is being constructed at the same moment
+        for i in range(8 if self.tier == "quick" else 32):
+            ty = rng.choice(["f64", "f32"])
+            kind = rng.choice(["sincin", "sincout"])
+            sl, osf = rng.choice([(512, 256), (256, 512), (1024, 128), (512, 512)])
+            line = f"{ty} {kind} {hx(rng.choice([0.9, 1.1, 48000 / 44100]))} {hx(1.0)} {rng.randint(0, 3)} {sl} {osf} {hx32(0.95)} {rng.randint(0, 5)} 64 1 auto"
+            ops = [f"0 new {line}", f"1 new {line}", f"2 new {line}"]
+            for _ in range(4):
+                ops += [f"0 proc - n m r{i + 7}", f"1 proc - n m r{i + 7}", f"2 proc - n m r{i + 7}"]
+            hs.append(History(ops, {"cfg": line, "kind": "mixed", "ty": "mixed", "feats": ["large-table"], "twin_slots": 3}))
         return hs
 
     def nontrivial(self, h):
         return h.meta.get("threads", 0) >= 2
+
+    def oracle(self, h):
+        """two instances built from the same arguments inside one history and driven by the same calls must observe the
+        same thing, bit for bit (`deterministic`: outputs are a function of constructor arguments and call history)"""
+        out = []
+        if not h.meta.get("twin_slots"):
+            return out
+        n = int(h.meta["twin_slots"])
+        k = n
+        while k + n - 1 < len(h.ops):
+            obs = h.real[k:k + n]
+            if "skip" in obs or "missing" in obs:
+                break
+            for j in range(1, n):
+                if not same_obs(obs[0], obs[j]):
+                    out.append({"property": "C18", "kind": "mixed", "clause": "equal-instances-differ", "calm": True,
+                                "step": k + j, "op": h.ops[k + j], "detail": {"first": obs[0][:200], "other": obs[j][:200]},
+                                "ops": h.ops, "meta": h.meta})
+                    return out
+            k += n
+        return out
 
     def extra(self, rng, cov):
         import subprocess
@@ -2163,11 +2215,20 @@ class C11(Prop):
             feats = {"mask:" + mask}
             for _ in range(rng.randint(2, 12)):
                 r = rng.random()
-                if r < 0.75:
+                if r < 0.6:
                     ops.append(f"0 proc {mask} n m {sg} em")
                     ops.append(f"1 proc - n m {sg}")
                     for c in range(nch):
                         ops.append(f"{2 + c} proc - n m {sg} co={c}")
+                elif r < 0.75:
+                    # a partial (shorter) chunk: the frames taken from an active channel must not depend on the (empty)
+                    # slices handed over for the inactive ones
+                    kk = rng.randint(0, 6)
+                    ops.append(f"0 part {mask} p{kk} m {sg} em")
+                    ops.append(f"1 part - p{kk} m {sg}")
+                    for c in range(nch):
+                        ops.append(f"{2 + c} part - p{kk} m {sg} co={c}")
+                    feats.add("partial")
                 elif r < 0.9 and cfg.kind in gen.ASYNC and cfg.maxrel > 1:
                     rr, rel = gen.in_range_ratio(rng, cfg, calm=True)
                     ramp = rng.choice([0, 1])
@@ -2378,7 +2439,13 @@ class C14(Prop):
             if ncalls > 6000:
                 continue
             ops = [cfg.new(0)] + pre + [f"0 proc - n m k{n} dump"] * ncalls
-            hs.append(History(ops, {"cfg": cfg.line, "kind": cfg.kind, "ty": cfg.ty, "feats": ["impulse"], "n": n,
+            fe = ["impulse"]
+            if rng.random() < 0.3 and ncalls >= 3:
+                # a rejected call in the middle of the clip: what follows must still line up with output_delay()
+                # (wrong number of output channels: rejected whatever the sizes currently asked for are)
+                ops.insert(len(ops) - rng.randint(1, ncalls - 1), f"0 proc - n m k{n} dump oc=2")
+                fe.append("rejected-call")
+            hs.append(History(ops, {"cfg": cfg.line, "kind": cfg.kind, "ty": cfg.ty, "feats": fe, "n": n,
                                     "ratio": ratio}))
         # polynomial types: run far from the construction ratio, reset(), then the clip: the delay read after reset() must be
         # the true delay of what follows
@@ -2398,6 +2465,22 @@ class C14(Prop):
             hs.append(History([cfg.new(0)] + pre + [f"0 proc - n m k{n} dump"] * ncalls,
                               {"cfg": cfg.line, "kind": kind, "ty": cfg.ty, "feats": ["impulse", "after-reset"], "n": n,
                                "ratio": cfg.ratio}))
+        # FFT types fed chunks smaller than one block, with rejected calls in the middle of the clip
+        for i in range(4):
+            kind = rng.choice(["fftin", "fftin", "fftout"])
+            ri, ro = rng.choice([(44100, 48000), (48000, 44100), (147, 160)])
+            ty = rng.choice(["f64", "f32"])
+            chunk = rng.choice([32, 64, 100])
+            line = f"{ty} {kind} {ri} {ro} {chunk} 1 1"
+            fi, fo = fft_sizes(ri, ro, chunk, kind == "fftout")
+            n = rng.randint(400, 2500)
+            per_in = chunk if kind == "fftin" else chunk * ri / ro
+            ncalls = int((n + 3 * fi + 100) / per_in) + 3
+            ops = [f"0 new {line}"] + [f"0 proc - n m k{n} dump"] * ncalls
+            for _ in range(2):
+                ops.insert(rng.randint(2, max(3, int(n / per_in) - 2)), f"0 proc - n m k{n} dump oc=2")
+            hs.append(History(ops, {"cfg": line, "kind": kind, "ty": ty, "feats": ["impulse", "rejected-call", "sub-block-chunks"],
+                                    "n": n, "ratio": ro / ri}))
         # large FFT blocks (small-gcd rate pairs, big chunks): the delay must stay half a block whatever the block length
         for (ri, ro, chunk) in [(44100, 44110, 64), (48000, 44090, 64), (44100, 48000, 8192), (1000, 1001, 5000)][:2 if self.tier == "quick" else 4]:
             kind = rng.choice(gen.FFT)
